@@ -126,16 +126,21 @@ func (p *untypedParamBinder) allowsMulti() bool {
 
 func (p *untypedParamBinder) readValue(values runtime.Gettable, target reflect.Value) ([]string, bool, bool, error) {
 	name, in, cf, tpe := p.parameter.Name, p.parameter.In, p.parameter.CollectionFormat, p.parameter.Type
+	key := name
+	if in == "header" {
+		// http.Header stores canonical keys: header names are matched case-insensitively
+		key = http.CanonicalHeaderKey(name)
+	}
 	if tpe == typeArray {
 		if cf == "multi" {
 			if !p.allowsMulti() {
 				return nil, false, false, errors.InvalidCollectionFormat(name, in, cf)
 			}
-			vv, hasKey, _ := values.GetOK(name)
+			vv, hasKey, _ := values.GetOK(key)
 			return vv, false, hasKey, nil
 		}
 
-		v, hk, hv := values.GetOK(name)
+		v, hk, hv := values.GetOK(key)
 		if !hv {
 			return nil, false, hk, nil
 		}
@@ -143,7 +148,7 @@ func (p *untypedParamBinder) readValue(values runtime.Gettable, target reflect.V
 		return d, c, hk, e
 	}
 
-	vv, hk, _ := values.GetOK(name)
+	vv, hk, _ := values.GetOK(key)
 	return vv, false, hk, nil
 }
 
